@@ -38,7 +38,16 @@ pub const PATTERNS: [&str; 24] = [
     "?a",
 ];
 
-pub const MULTI: [&str; 10] = [
+pub const MULTI: [&str; 19] = [
+    "?s == (b ?a ?c), ?a == (var $0), ?c == (var $1)",
+    "?a == (var $0), ?c == (var $1), ?s == (b ?a ?c)",
+    "?s == (b ?a ?c), ?a == (h $0), ?c == (f $1 $0)",
+    "?a == (h $0), ?o == (b ?c ?a)",
+    "?a == (var $0), ?o == (b ?a ?c)",
+    "?o == (b ?c ?a), ?a == (h $0)",
+    "?l == (lam $0 ?b)",
+    "?l == (lam $0 ?b), ?b == (f $0 $1)",
+    "?a == (f $0 $1), ?o == (b ?a ?c)",
     "?x == (b ?a ?b), ?a == (h $0)",
     "?x == (b ?a ?a)",
     "?x == (u ?a), ?a == (f $0 $1)",
